@@ -108,6 +108,10 @@ def assigned_names(stmts):
         elif isinstance(t, (ast.Tuple, ast.List)):
             for e in t.elts:
                 tgt(e)
+        elif isinstance(t, ast.Attribute) and isinstance(t.value, ast.Name) and t.value.id == "self":
+            k = "self." + t.attr
+            if k not in names:
+                names.append(k)
         elif isinstance(t, (ast.Subscript, ast.Attribute)):
             b = t.value
             while isinstance(b, (ast.Subscript, ast.Attribute)):
@@ -348,7 +352,11 @@ def exec_loop(ctx, st, env, cond):
             used.add(x[2])
     inits = tuple((n, env.get(n, ("undef", n))) for n in body_assigned if n in used)
     loop_term = ("loop", lid, header, inits, body_terms)
+    bt_map = dict(body_terms)
     for n in body_assigned:
+        if bt_map.get(n) == ("lv", lid, n) and n in env:
+            env_out[n] = env[n]        # unchanged by the body (e.g. `q += f0(x) * 0`)
+            continue
         res = ("loopout", n, loop_term)
         prev = env.get(n)
         if prev is not None and prev[0] in ("angle", "epoch"):
@@ -711,8 +719,10 @@ def ev_call(ctx, node, env):
         name = f.id
         if name in env and env[name][0] == "closure":
             return inline_closure(ctx, ctx.closures[env[name][1]], args, kws, env)
-        if name in env and env[name][0] in ("angle", "epoch"):
+        if name in env and env[name][0] in ("angle", "epoch", "zerofn"):
             return call_value(env[name], args)
+        if name in env and env[name][0] == "sym":
+            return T.call("apply", env[name], *args)
         if name == "Angle":
             return make_angle(args, kws)
         if name == "Epoch":
@@ -725,6 +735,8 @@ def ev_call(ctx, node, env):
             a = args[0]
             if a[0] == "angle":
                 return ("angle", T.call("abs", T.call("red", a[1])))
+            if a[0] == "num":
+                return ("num", abs(a[1]))
             return T.call("abs", a)
         if name == "float":
             a = args[0]
@@ -783,6 +795,8 @@ def ev_call(ctx, node, env):
 
 
 def call_value(fv, args):
+    if fv == ("zerofn",):
+        return T.ZERO
     if fv[0] == "angle" and not args:
         return T.call("red", fv[1])
     if fv[0] == "epoch" and not args:
